@@ -16,7 +16,7 @@ LEVEL = 'other'
 SELF = P.Pat(lambda t: t == ('self',), 'self')
 
 INTS0 = INTS = (None, -7, -5, -4, -1, 0, 1, 2, 4, 5, 7)
-SECS0 = SECS = (None, 0, 0.25, 0.5, 1, 1.26, 1.999, 2.5, -0.5, -1.3, 3)
+SECS0 = SECS = (None, 0, 0.25, 0.5, 1, 1.26, 1.999, 2.5, -0.5, -1.3, 3, -0.03125, -0.00001)
 
 
 def eff(lo, hi, n):
@@ -45,7 +45,7 @@ def check(repo, rep):
     rep.cx = cx
     big = rep.tier == 'thorough'        # the thorough tier evaluates the same obligations on a much larger grid
     INTS = ((None,) + tuple(range(-14, 15))) if big else INTS0
-    SECS = ((None,) + tuple(x / 8 for x in range(-24, 33)) + (1.26, 1.999, -1.3, 0.333, 2.0005)) if big else SECS0
+    SECS = ((None,) + tuple(x / 8 for x in range(-24, 33)) + (1.26, 1.999, -1.3, 0.333, 2.0005, -0.03125, -0.00001)) if big else SECS0
     NS = (0, 1, 2, 3, 5, 6, 9, 12) if big else (0, 1, 3, 6)
     WIDTHS = (1, 2, 4) if big else (1, 2)
     CHANS = (1, 2, 3) if big else (1, 2)
@@ -239,10 +239,20 @@ def check(repo, rep):
                 shapes[id(l)] = (v[2][1], v[2][2])
         bad = undecided = None
         npoints = 0
-        for rate_ in (8, 10, 16000, 44100):
+        LEN = ('call', ('b', 'len'), (REG,), ())
+        # bounds that are computed from the length of the region (absolute positions) are compared as the samples they select
+        for lens_ in ((None,), (0, 1, 5, 7, 50000)):
+          if lens_ != (None,) and not (undecided and 'len(' in undecided):
+              break
+          bad = undecided = None
+          npoints = 0
+          for rate_ in (8, 10, 16000, 44100):
+           for n_ in lens_:
             for a_ in SECS:
                 for b_ in SECS:
                     assign = {('p', 'index'): slice(a_, b_), ('attr', REG, 'sampling_rate'): rate_}
+                    if n_ is not None:
+                        assign[LEN] = n_
                     try:
                         hit = [l for l in sv if holds(l, evaluator(assign, mode='frac'))]
                         if len(hit) != 1:
@@ -261,6 +271,11 @@ def check(repo, rep):
                         want_lo = int((a_ or 0) * rate_)
                         want_hi = None if b_ is None else round(b_ * rate_)
                         npoints += 1
+                        if n_ is not None:
+                            if isinstance(lov, float) or isinstance(hiv, float) or eff(lov, hiv, n_) != eff(want_lo, want_hi, n_):
+                                bad = bad or (l, 'region.sec[%s:%s] at %d Hz on a region of %d samples selects samples [%r:%r]; int(start * rate) = %d and %s select others' % (
+                                    a_, b_, rate_, n_, lov, hiv, want_lo, 'None (omitted)' if want_hi is None else 'round(stop * rate) = %d' % want_hi))
+                            continue
                         if (lov or 0) != want_lo or isinstance(lov, float):
                             bad = bad or (l, 'region.sec[%s:%s] at %d Hz starts at sample %r (term %s); the start is int(start * rate) = %d' % (a_, b_, rate_, lov, show(lo)[:80] if lo else None, want_lo))
                         if hiv != want_hi or isinstance(hiv, float):
@@ -272,6 +287,8 @@ def check(repo, rep):
                     break
             if undecided:
                 break
+           if undecided:
+               break
         if undecided:
             rep.unknown('_SecondsView.__getitem__: %s' % undecided)
         elif sv:
